@@ -94,6 +94,15 @@ def scenario_for(seed, index, tier):
     hist = gen_history(rng, ids, n, compress)
     if kick:
         hist = [it for it in hist if it[0] != 'pause' or it[1] < 1000000]
+        if make_rng('kick-burst', ID, seed, index).random() < 0.3:
+            # one burst of exactly as many packets as the client reads per
+            # round (50), the disconnect packet being the next one: the
+            # answers are written - to a server that has closed - before the
+            # disconnect packet is read
+            hist = [it for it in hist if it[0] != 'pause']
+            while len(hist) < 50:
+                hist.append(['ka', 5000 + len(hist)])
+            hist = hist[:50]
     user_packets = 0 if kick else rng.choice([0, 0, 0, 5, 320, 650])
     login = ([['compress', compress]] if compress is not None else []) + \
         [['success']]
